@@ -250,7 +250,7 @@ FOLDED = {
 }
 
 
-def check_sites(ck: Checker, R='C02.IDX', only_subcircuit=False):
+def check_sites(ck: Checker, R='C02.IDX', only_subcircuit=False, only_function=None):
     repo = ck.repo
     _, _, conv = rw.find_convertors(ck)
     conv_funcs = {(hmod.name, hname) for (hmod, hname, _, _) in conv.values()}
@@ -268,6 +268,13 @@ def check_sites(ck: Checker, R='C02.IDX', only_subcircuit=False):
         n_sites += 1
         cons = f'{q}: {norm(node)[:150]}'
         is_sub = m.name == 'cirbo.minimization.subcircuit' and q == 'minimize_subcircuits'
+        if only_function is not None:
+            if m.name == CIRCUIT and q == only_function:
+                if q == 'Circuit.connect_circuit':
+                    _connect_site(ck, R, m, node, what, cons)
+                elif q == 'Circuit.replace_subcircuit':
+                    _replace_subcircuit_site(ck, R, m, node, what, cons)
+            continue
         if only_subcircuit:
             if is_sub:
                 _subcircuit_site(ck, R, m, node, what, cons)
